@@ -347,11 +347,12 @@ Ref(x, g, lo, hi, var) ==
          ELSE OfMsgs(<<<<"N", BLatest(g, lo, PA(x))>>>> \o Sel(SubSeq(g, lo + 1, hi), PA(x) + 200), <<>>)
     [] o = "share" \/ o = "publish" ->
          (* multicast of the ONE subscription to the source made at the connection point c0 *)
-         LET c0 == MarkPos(g, "S", x, 1)
+         (* variant "fresh": this subscription makes a connection of its own (a share that reconnects after everybody left) *)
+         LET c0 == IF "fresh" \in var /\ o = "share" THEN lo ELSE MarkPos(g, "S", x, 1)
              d0 == MarkPos(g, "D", x, 1)                      \* the connection was unsubscribed here (0: never)
              top == IF d0 > 0 /\ d0 < hi THEN d0 ELSE hi
              (* subscribed before the connection was made (share: the subscription that makes it) *)
-             early == IF o = "share" THEN lo <= c0 ELSE lo < c0
+             early == IF "fresh" \in var /\ o = "share" THEN TRUE ELSE IF o = "share" THEN lo <= c0 ELSE lo < c0
          IN
          IF c0 = 0 \/ c0 > hi THEN S(<<>>, "", U)
          ELSE LET all == MsgsOf(Ref(S1(x), g, c0, top, var)) IN
